@@ -48,6 +48,12 @@ fn main() {
         let kind: usize = args.get(2).and_then(|s| s.parse().ok()).unwrap_or(0);
         std::process::exit(idl::deep_child(depth, kind));
     }
+    if args[0] == "outframe-large" {
+        // child process of C02 (main build): `--tier t` for the whole phase, `--case i` for one case
+        let only = args.iter().position(|a| a == "--case").and_then(|p| args.get(p + 1)).and_then(|s| s.parse().ok());
+        let tier = if args.iter().any(|a| a == "thorough") { Tier::Thorough } else { Tier::Quick };
+        std::process::exit(outframe::large_child(tier, only));
+    }
     if args[0] == "limits-prod" {
         std::process::exit(limits::production_child());
     }
